@@ -137,8 +137,10 @@ def run(ctx):
         tmp = tempfile.mkdtemp(prefix="ngv_c19_")
         try:
             img, a, dt, vox, mode = gen_volume(rng)
-            while it < 5 and max(a.shape) <= 64:          # the forced option interactions need several scales
-                img, a, dt, vox, mode = gen_volume(rng)
+            while it < 5 and (max(a.shape) <= 64 or (it in (2, 3) and (dt == "float32" or len(set(vox)) > 1))):
+                # the forced option interactions need several scales; two of them also feed the level-chain
+                # correspondence (integer type, isotropic voxels), so that it is exercised on every run
+                img, a, dt, vox, mode = gen_volume(rng, iso=it in (2, 3))
             vol = os.path.join(tmp, "vol.nii")
             nibabel.save(img, vol)
             enc = rng.choice([None, None, "raw", "compressed_segmentation", "compressed_segmentation"] +
